@@ -26,8 +26,9 @@ FAKE = os.path.join(os.path.dirname(os.path.abspath(__file__)), "..", "harness",
 class Wire:
     """routes every Sugar-family entry point to `reply(desc)` and records what was sent"""
 
-    def __init__(self, workdir, reply_text=None, via_path=False):
+    def __init__(self, workdir, reply_text=None, via_path=False, script=None):
         self.dir, self.reply_text, self.via_path = str(workdir), reply_text, via_path
+        self.script = script
         self.requests = []
 
     def __enter__(self):
@@ -55,15 +56,28 @@ class Wire:
             cspuz.config.backend_path = None
         else:
             cspuz.config.backend_path = os.path.abspath(FAKE)
-        for f in ("request.txt", "argv.txt", "reply.txt"):
-            try:
-                os.remove(os.path.join(self.dir, f))
-            except OSError:
-                pass
+        for f in os.listdir(self.dir):
+            if f in ("request.txt", "argv.txt", "reply.txt") or f.startswith(("request_", "reply_")):
+                try:
+                    os.remove(os.path.join(self.dir, f))
+                except OSError:
+                    pass
+        for n, text in enumerate(self.script or []):
+            with open(os.path.join(self.dir, "reply_%d.txt" % n), "w") as f:
+                f.write(text)
         if self.reply_text is not None:
             with open(os.path.join(self.dir, "reply.txt"), "w") as f:
                 f.write(self.reply_text)
         return self
+
+    def conversation(self):
+        """every request the executable received, in order"""
+        out, n = [], 0
+        while os.path.exists(os.path.join(self.dir, "request_%d.txt" % n)):
+            text = open(os.path.join(self.dir, "request_%d.txt" % n), "rb").read()
+            out.append({"text": text.decode("ascii", "replace"), "ascii": all(b < 128 for b in text)})
+            n += 1
+        return out
 
     def subprocess_request(self):
         try:
@@ -108,7 +122,7 @@ def build_solver(spec):
             elif a == "ensure":
                 s.ensure(DX.build(st["x"], vs))
             elif a == "add_key":
-                s.add_answer_key(vs[st["id"]])
+                s.add_answer_key([vs[i] for i in (st.get("ids") or [st["id"]])])
         return s
     h = spec["helper"]
     prim = spec["prim"]
@@ -183,6 +197,83 @@ def record_requests(jobs):
         rec["mode"] = "deduce" if (call == "solve" and name != "sugar") else "find"
         out.append(rec)
     return out
+
+
+# ---------------------------------------------------------------------------------------
+# conversations: the refinement loop of Solver.solve through the `sugar` executable (several requests per call)
+
+def _finder_reply(vars_, m):
+    if m is None:
+        return "s UNSATISFIABLE\n"
+    lines = ["s SATISFIABLE"]
+    for i, v in enumerate(vars_):
+        if v["kind"] == "bool":
+            lines.append("a b%d\t%s" % (i, "true" if m[i] else "false"))
+        else:
+            lines.append("a i%d\t%d" % (i, m[i]))
+    return "\n".join(lines + ["a"]) + "\n"
+
+
+def _script(prog, rng):
+    """what a correct solver may answer to the successive requests of the refinement loop (spec/SolveLoop.tla),
+    and the refuting clause each follow-up request must add"""
+    import itertools
+    from harness.pyeval import ev
+    doms = [[False, True] if v["kind"] == "bool" else list(range(v["lo"], v["hi"] + 1)) for v in prog["vars"]]
+    remaining = [a for a in itertools.product(*doms) if all(ev(c, a) for c in prog["cons"])]
+    if not remaining:
+        return [None], []
+    m = rng.choice(remaining)
+    models, extras = [m], []
+    answer = {k: m[k] for k in prog["keys"]}
+    while True:
+        lits = []
+        for k in prog["keys"]:
+            if answer[k] is not None:
+                var = {"op": "VAR", "id": k}
+                lits.append({"op": "XOR", "args": [var, {"op": "BOOL", "val": answer[k]}]} if prog["vars"][k]["kind"] == "bool"
+                            else {"op": "NE", "args": [var, {"op": "INT", "val": answer[k]}]})
+        clause = {"op": "OR", "args": lits}
+        extras.append(clause)
+        remaining = [a for a in remaining if ev(clause, a)]
+        if not remaining:
+            models.append(None)
+            return models, extras
+        m = rng.choice(remaining)
+        models.append(m)
+        for k in prog["keys"]:
+            if answer[k] is not None and answer[k] != m[k]:
+                answer[k] = None
+
+
+def record_conversations(jobs):
+    from harness.export import program
+    from harness.sexpr import parse_request
+    from harness import session
+    reqs, traces = [], []
+    for tid, spec, seed, workdir in jobs:
+        rng = random.Random(seed)
+        prog = program(build_solver(spec))
+        models, extras = _script(prog, rng)
+        steps = [dict(st) for st in spec["steps"]] + [{"a": "solve"}]
+        with Wire(workdir, script=[_finder_reply(prog["vars"], m) for m in models]) as w:
+            events = session.run_scenario(steps, "sugar")
+            conv = w.conversation()
+        traces.append({"t": tid, "events": events})
+        for j in range(max(len(conv), len(models))):
+            rec = {"t": tid * 100 + j, "backend": "sugar", "status": "ok", "exc": "", "transport_ok": True, "lines": [],
+                   "small": True, "mode": "find", "conv": tid, "pos": j,
+                   "prog": {"vars": prog["vars"], "cons": prog["cons"] + extras[:j], "keys": prog["keys"]}}
+            if j >= len(conv):
+                rec["status"], rec["exc"] = "exc", "ExpectedFollowUpRequestNeverSent"
+            elif j >= len(models):
+                rec["status"], rec["exc"] = "exc", "RequestAfterTheSolverAnsweredUnsatisfiable"
+            else:
+                rec["transport_ok"] = conv[j]["ascii"]
+                rec["lines"] = parse_request(conv[j]["text"])
+                rec["text"] = conv[j]["text"][:2000]
+            reqs.append(rec)
+    return reqs, traces
 
 
 # ---------------------------------------------------------------------------------------
@@ -266,6 +357,44 @@ def run(tier, seed):
     chk.traces += len(recs)
     ex = next(r for r in recs if r["backend"] == "cspuz_core" and r["mode"] == "deduce" and len(r.get("text", "")) > 40)
     chk.sample({"request": ex["text"][:400], "backend": "cspuz_core", "mode": "deduce"})
+    # ---- conversations (several requests per solve(): the refinement loop through the `sugar` executable)
+    sess = [sp for sp in specs if sp["kind"] == "session"][: 64 if tier == "quick" else 640]
+    cjobs = [(i, sp, seed * 1000 + i, None) for i, sp in enumerate(sess)]
+    parts = chunks(cjobs, NPROC)
+    for i, p in enumerate(parts):
+        d = chk.dir / f"wire{i}"
+        d.mkdir(exist_ok=True)
+        parts[i] = [(a, b, c, str(d)) for (a, b, c, _) in p]
+    with mp.get_context("fork").Pool(NPROC) as pool:
+        outs = pool.map(record_conversations, parts)
+    creqs = [x for o in outs for x in o[0]]
+    ctraces = [x for o in outs for x in o[1]]
+    cpath = chk.dir / "conversations.ndjson"
+    write_ndjson(cpath, [{k: v for k, v in r.items() if k != "text"} for r in creqs])
+    res = run_tlc("Trace_Sugar", "Trace_Sugar", workdir=chk.dir, env={"TRACE_FILE": str(cpath)}, timeout=3000)
+    chk.add_tlc(res)
+    if len(res.records) != len(creqs):
+        raise MachineryError(f"{len(creqs)} conversation requests but {len(res.records)} verdicts")
+    cby = {r["t"]: r for r in creqs}
+    for v in res.records:
+        r = cby[v["t"]]
+        chk.note_case(f"conv/{v['t']}", r["pos"] >= 1)
+        if v["verdict"] != "ok":
+            chk.violation({"side": "request", "clause": v["verdict"], "backend": "sugar", "route": "conversation"},
+                          f"request #{r['pos'] + 1} of one solve() through the sugar executable: {v['verdict']}",
+                          {"spec": sess[r["conv"]], "backend": "sugar", "call": "solve", "request_no": r["pos"] + 1,
+                           "text": r.get("text", ""), "expected_program": r["prog"]})
+    from harness import sessions_check as S
+    cverd = S.judge(chk, ctraces, "conversation_sessions")
+    for tr in ctraces:
+        v = cverd[tr["t"]]
+        if v["verdict"] != "ok":
+            chk.violation({"side": "conversation", "clause": v["verdict"], "backend": "sugar"},
+                          f"solve() through the sugar executable answered by a correct stand-in: {v['verdict']}",
+                          {"spec": sess[tr["t"]], "backend": "sugar", "rejected_event": tr["events"][v["k"] - 1]})
+    chk.traces += len(creqs)
+    chk.extra["conversations"] = len(ctraces)
+    chk.extra["conversation_requests_judged"] = len(creqs)
     # ---- replies
     res2 = run_tlc("MC_SugarReply", "MC_SugarReply", workdir=chk.dir, timeout=900)
     chk.add_tlc(res2)
